@@ -136,4 +136,56 @@ theorem next_encode (cps : List Nat) (i : Nat) (h : i < cps.length) (hv : ∀ c 
     rw [if_neg (by omega), if_pos h2]
   · rw [byteOffset_ge cps (i+1) (by omega), if_pos (Nat.le_refl _), if_neg h2]
 
+/-! ### TrimWhitespace: the two index loops -/
+
+theorem trimStart_found (text : Bytes) (k e0 : Nat)
+    (hsp : ∀ i, i < k → isSpace (text.getD i 0) = true) (hk : isSpace (text.getD k 0) = false) (hke : k ≤ e0) :
+    ∀ fuel start, start ≤ k → k - start + 1 ≤ fuel → trimStart text e0 fuel start = k := by
+  intro fuel
+  induction fuel with
+  | zero => intro start _ h; omega
+  | succ fuel ih =>
+    intro start hs hf
+    unfold trimStart
+    by_cases hsk : start = k
+    · subst hsk; rw [hk]; simp
+    · have hlt : start < k := by omega
+      rw [if_pos (hsp start hlt)]
+      by_cases h1 : start + 1 < e0
+      · rw [if_pos h1]; exact ih (start + 1) (by omega) (by omega)
+      · rw [if_neg h1]; omega
+
+theorem trimStart_allspace (text : Bytes) (e0 : Nat)
+    (hsp : ∀ i, i ≤ e0 → isSpace (text.getD i 0) = true) :
+    ∀ fuel start, start < e0 → e0 - start ≤ fuel → trimStart text e0 fuel start = e0 := by
+  intro fuel
+  induction fuel with
+  | zero => intro start h1 h2; omega
+  | succ fuel ih =>
+    intro start hs hf
+    unfold trimStart
+    rw [if_pos (hsp start (by omega))]
+    by_cases h1 : start + 1 < e0
+    · rw [if_pos h1]; exact ih (start + 1) h1 (by omega)
+    · rw [if_neg h1]; omega
+
+theorem trimEnd_found (text : Bytes) (k t e0 : Nat)
+    (hsp : ∀ i, t < i → i ≤ e0 → isSpace (text.getD i 0) = true) (ht : isSpace (text.getD t 0) = false) (hkt : k ≤ t) :
+    ∀ fuel e, t ≤ e → e ≤ e0 → e - t + 1 ≤ fuel → trimEnd text k fuel e = t := by
+  intro fuel
+  induction fuel with
+  | zero => intro e _ _ h; omega
+  | succ fuel ih =>
+    intro e h1 h2 hf
+    unfold trimEnd
+    by_cases het : e = t
+    · subst het; rw [ht]; simp
+    · have hgt : t < e := by omega
+      have hs := hsp e hgt h2
+      have hne : (e != 0) = true := by simp; omega
+      simp only [hs, hne, Bool.and_self, if_true]
+      have : e - 1 ≥ k := by omega
+      rw [if_pos this]
+      exact ih (e - 1) (by omega) (by omega) (by omega)
+
 end CCVerif.Strings
